@@ -52,7 +52,7 @@ func c17Gen(rng *rand.Rand, conf string, idx int) any {
 	n := 1 + rng.Intn(5)
 	for i := 0; i < n; i++ {
 		p := C17Plugin{Name: fmt.Sprintf("pl%d", i), Idx: fmt.Sprintf("%02d", rng.Intn(100))}
-		kinds := []string{"valid", "valid", "empty-name", "bad-index", "never-registers", "never-configures", "bad-mask", "good-mask", "cfg-error"}
+		kinds := []string{"valid", "valid", "empty-name", "bad-index", "never-registers", "never-configures", "bad-mask", "good-mask", "cfg-error", "retry-bad"}
 		if i == 0 {
 			kinds = append(kinds, "late", "early")
 		}
@@ -62,6 +62,9 @@ func c17Gen(rng *rand.Rand, conf string, idx int) any {
 			p.Name = ""
 		case "bad-index":
 			p.Idx = pick(rng, c17BadIdx)
+		case "retry-bad":
+			// a malformed registration every 0.6 x T_reg, a well-formed one only after 3 x T_reg
+			p.DelayMs = w.TregMs * 6 / 10
 		case "late":
 			p.DelayMs = w.TregMs + 60 + rng.Intn(200)
 		case "early":
@@ -203,7 +206,12 @@ func c17Run(t *testing.T, wl any, sc SchedCfg) *Result {
 				continue
 			}
 			e.Task("register-"+fmt.Sprint(i), func() {
-				if pw.DelayMs > 0 {
+				if pw.Kind == "retry-bad" {
+					for k := 0; k < 5; k++ {
+						p.rt.RegisterPlugin(context.Background(), &api.RegisterPluginRequest{PluginName: pw.Name, PluginIdx: "x" + fmt.Sprint(k)})
+						time.Sleep(time.Duration(pw.DelayMs) * time.Millisecond)
+					}
+				} else if pw.DelayMs > 0 {
 					time.Sleep(time.Duration(pw.DelayMs) * time.Millisecond)
 				}
 				_, err := p.rt.RegisterPlugin(context.Background(), &api.RegisterPluginRequest{PluginName: pw.Name, PluginIdx: pw.Idx})
@@ -221,10 +229,14 @@ func c17Run(t *testing.T, wl any, sc SchedCfg) *Result {
 		}
 		// a marker event for everybody who is active
 		var merr error
+		markerDone := false
 		e.Task("marker", func() {
 			merr = r.StartContainer(context.Background(), &api.StateChangeEvent{Pod: &api.PodSandbox{Id: "p"}, Container: &api.Container{Id: "marker", PodSandboxId: "p"}})
+			markerDone = true
 		})
-		if err := e.RunUntil(500000, func() bool { return e.TasksDone() }); err != nil || merr != nil {
+		// (a plugin that keeps re-sending a rejected registration may sit in that call for ever: only
+		// the marker has to finish)
+		if err := e.RunUntil(500000, func() bool { return markerDone }); err != nil || merr != nil {
 			res.Violate("C17.runtime-alive", "marker event after the registrations: %v / %v; plugins %s", err, merr, c17Desc(w))
 			return
 		}
@@ -249,6 +261,8 @@ func c17Run(t *testing.T, wl any, sc SchedCfg) *Result {
 			switch pw.Kind {
 			case "never-registers", "late":
 				bound += treg
+			case "retry-bad":
+				// rejected at its first malformed registration: no stall allowed for it
 			case "never-configures":
 				bound += treq
 			case "early":
